@@ -68,3 +68,40 @@ Proof.
   - exists ref. split; [exact A|]. split; [exact B|exact C].
 Qed.
 End Stage1.
+
+(* ---------------------------------------------------------------- examples (uuids = naturals) *)
+Lemma ustrN_inj a b : ustrN a = ustrN b -> a = b.
+Proof. unfold ustrN. intros H. injection H as H. apply dec_of_N_inj, H. Qed.
+Lemma ustrN_ne a : ustrN a <> [].
+Proof. discriminate. Qed.
+Lemma Neqb_spec a b : N.eqb a b = true <-> a = b.
+Proof. apply N.eqb_eq. Qed.
+
+Definition ex_msg (u : N) (txt : string) (dest : option N) : node N :=
+  {| n_uuid := u; n_actions := [ActSendMsg N (lit_fn txt) [] [] None]; n_ui := None; n_kind := NBasic N dest |}.
+
+(* a join and a cycle: 1 -> 2 -> 3 -> 2 (node 2 is entered from 1 and from 3); node 3 has two actions *)
+Definition ex_cycle : list (node N) :=
+  [ ex_msg 1 "one" (Some 2%N); ex_msg 2 "two" (Some 3%N);
+    {| n_uuid := 3%N; n_actions := [ActSendMsg N (lit "three") [] [] None; ActSetField N (lit "Field") (lit "v")]; n_ui := None;
+       n_kind := NBasic N (Some 2%N) |} ].
+
+Definition ref_size (ns : list (node N)) : option nat :=
+  match to_rows N.eqb false ns with
+  | Ok rows => option_map (fun f => List.length (f_nodes f)) (rowsem nab (abs_rows N ustrN false rows))
+  | Err _ => None
+  end.
+
+Definition ex_cycle_rows : list (str * str) :=
+  [(lit "msg.one", lit "send_message"); (lit "msg.two", lit "send_message"); (lit "msg.three", lit "send_message");
+   (lit "msg.three.1", lit "save_value"); (lit "goto.msg.two", lit "go_to")].
+
+(* row ids and row types of the export *)
+Definition export_skel (ns : list (node N)) : res (list (str * str)) :=
+  rmap (map (fun r => (r_id r, r_type r))) (to_rows N.eqb false ns).
+
+Lemma ex_cycle_exportable :
+  exportable N N.eqb ex_cycle = true /\ basic_only N ex_cycle = true
+  /\ export_skel ex_cycle = Ok ex_cycle_rows
+  /\ ref_size ex_cycle = Some 3%nat.
+Proof. vm_compute. repeat split; reflexivity. Qed.
